@@ -107,6 +107,7 @@ class Run(RunBase):
         self.caller = Caller()
         self.refmemo = {}
         self.arrmemo = {}
+        self.siblings = {}
         self.nref = 0
         self.scribbled = False
         # C13 twin
@@ -247,10 +248,10 @@ class Run(RunBase):
         # op kind by weight (swarm: the per-run weights are jittered by the world's mix seed)
         if c13:
             table = (("call", 34), ("scribble", 8), ("clearcache", 4), ("regen", 8), ("regrid", 5), ("foreign", 5),
-                     ("badcall", 4), ("fork", 10), ("refork", 5), ("supercells", 4), ("component", 13), ("aux", 4), ("decoy", 3))
+                     ("badcall", 4), ("fork", 10), ("refork", 5), ("supercells", 4), ("component", 13), ("aux", 4), ("decoy", 3), ("sibling", 3))
         else:
             table = (("call", 40), ("scribble", 12), ("clearcache", 5), ("regen", 9), ("regrid", 5), ("foreign", 5),
-                     ("badcall", 5), ("save", 10), ("restart", 9), ("aux", 5), ("decoy", 3))
+                     ("badcall", 5), ("save", 10), ("restart", 9), ("aux", 5), ("decoy", 3), ("sibling", 4))
         mix = random.Random(self.w["pool_seed"] ^ 0x5eed)
         weights = [wt * mix.choice((0.3, 1.0, 1.0, 2.0)) for _, wt in table]
         kind = rng.choices([k for k, _ in table], weights=weights)[0]
@@ -279,6 +280,8 @@ class Run(RunBase):
             return self.gen_fork(rng)
         if kind == "decoy":
             return {"op": "decoy", "seed": rng.randrange(6)}
+        if kind == "sibling":
+            return {"op": "sibling", "k": rng.randrange(npool)}
         if kind == "aux":
             return {"op": "aux", "what": rng.choice(AUX), "k": rng.randrange(npool), "how": rng.choice(SCRIBBLES)}
         if kind == "refork":
@@ -569,6 +572,27 @@ class Run(RunBase):
         for a in red:
             if isinstance(a, np.ndarray):
                 a *= 0.0
+
+    SIBLING_WORLDS = ("sc", "fcc", "bcc", "diamond", "square", "tria", "honey", "triadisp", "rect2w", "rect4i",
+                      "oblique", "oblique2")
+
+    def op_sibling(self, index, op):
+        """The caller owns a SECOND live calculator for the same crystal and range (coarser k-mesh, NGFmax=1) and
+        evaluates the same physical input on it in between: two objects of one class must not see each other's
+        cached values (e.g. through class-level or module-level dictionaries)."""
+        if self.w["crystal"] not in self.SIBLING_WORLDS:
+            return "skip"
+        if self.N not in self.siblings:
+            self.siblings[self.N] = self.wd.construct(self.N, 1)
+        sib = self.siblings[self.N]
+        k = op["k"] % len(self.pool)
+        try:
+            out = sib.Lij(*self.pool.arrays(sib, k))
+            obs = "sib " + tens_digest(out)
+        except Exception as e:
+            obs = "sib exc " + type(e).__name__
+        self.faults["sibling-calculator-evaluated"] += 1
+        return obs
 
     def op_decoy(self, index, op):
         for calc, _ in self.targets():
